@@ -71,6 +71,17 @@ fn drive<E: Elem, D: DoubleEndedIterator<Item = E> + ExactSizeIterator>(mut d: D
                 visit(e, tr, held);
             }
         }
+        Term::SkipStep => d.skip(1).step_by(2).for_each(|e| visit(e, tr, held)),
+        Term::RevSkip => d.rev().skip(1).for_each(|e| visit(e, tr, held)),
+        Term::FindNone => {
+            let mut all: Vec<E> = Vec::new();
+            let _ = d.by_ref().find(|_| false);
+            // find() dropped every element it visited; nothing is handed out
+            all.extend(d);
+            for e in all {
+                visit(e, tr, held);
+            }
+        }
     }
 }
 
@@ -217,6 +228,9 @@ fn run_shape<E: Elem>(c: usize, r: usize, ctx: &mut Ctx) {
                                 Term::Last => (None, rest.last().copied().into_iter().collect()),
                                 Term::Fold | Term::ForEach => (None, rest.clone()),
                                 Term::Rfold => (None, rest.iter().rev().copied().collect()),
+                                Term::SkipStep => (None, rest.iter().skip(1).step_by(2).copied().collect()),
+                                Term::RevSkip => (None, rest.iter().rev().skip(1).copied().collect()),
+                                Term::FindNone => (None, Vec::new()),
                                 Term::RevThenFwd => {
                                     let mut v: Vec<(u32, Option<u64>)> = Vec::new();
                                     if let Some(l) = rest.last() {
